@@ -71,5 +71,9 @@ func (s LZ4Compressor) Decode(data []byte) ([]byte, error) {
 	}
 	buf := make([]byte, uncompressedLength)
 	n, err := lz4.UncompressBlock(data[4:], buf)
+	if err == nil && uint32(n) != uncompressedLength {
+		// the block ended before producing the length its prefix announces: corrupt body
+		return nil, fmt.Errorf("cassandra lz4 block decompressed to %d bytes, expected %d", n, uncompressedLength)
+	}
 	return buf[:n], err
 }
